@@ -10,7 +10,7 @@ import est_common as ec
 
 PROP_FILE = 'theories/Properties/C02.v'
 MODEL_FILES = ['theories/Base/Rows.v', 'theories/Model/Estimators.v']
-GEN_GROUPS = ['aipw']
+GEN_GROUPS = ['aipw', 'gener']
 RULE = ('random categorical frames with positivity (binary and normal outcomes); one nuisance side saturated, the other drawn '
         'from: intercept-only, main-effects-only, dropped covariates, ordinal code as linear term, or an arbitrary table of '
         'values per stratum (and arm) injected through custom_model; both-wrong runs counted to witness that the estimate '
